@@ -525,6 +525,27 @@ fn main() {
     struct Mutant { id: usize, path: PathBuf, clang: Vec<String>, pre: Vec<String>, op: &'static str, origin: String }
     let mut mutants: Vec<Mutant> = vec![];
     let mut op_hist: BTreeMap<&'static str, usize> = BTreeMap::new();
+    // corpus first: minimised inputs of past violations, unmutated, under default options and under
+    // an allow-list that keeps the offending items out of code generation
+    let corpus_dir = std::path::Path::new(&std::env::var("VERIF_DIR").unwrap_or_else(|_| "/verif".into())).join("corpus/C12");
+    let mut corpus_files: Vec<PathBuf> = std::fs::read_dir(&corpus_dir).map(|d| d.filter_map(|e| e.ok()).map(|e| e.path()).filter(|p| p.extension().is_some_and(|e| e == "h" || e == "hpp")).collect()).unwrap_or_default();
+    corpus_files.sort();
+    let n_corpus = corpus_files.len() * 2;
+    for (k, cf) in corpus_files.iter().enumerate() {
+        let ext = cf.extension().and_then(|e| e.to_str()).unwrap_or("h").to_owned();
+        let text = std::fs::read_to_string(cf).unwrap_or_default();
+        for v in 0..2 {
+            let id = n_mutants + 2 * k + v;
+            let path = mdir.join(format!("corpus{k}_{v}.{ext}"));
+            std::fs::write(&path, &text).unwrap();
+            let mut pre: Vec<String> = vec!["--formatter".into(), "none".into()];
+            if v == 1 { pre.extend(["--allowlist-function".to_owned(), ".*".to_owned()]); }
+            let clang = if ext == "hpp" { vec!["-x".to_owned(), "c++".to_owned(), "-std=c++14".to_owned()] } else { vec![] };
+            *op_hist.entry("corpus").or_insert(0) += 1;
+            mutants.push(Mutant { id, path, clang, pre, op: "corpus", origin: cf.file_name().unwrap().to_string_lossy().into_owned() });
+        }
+    }
+    let _ = n_corpus;
     for id in 0..n_mutants {
         let from_repo = r.chance(3, 5) && !repo.is_empty();
         let (text, ext, mut pre, mut clang, origin) = if from_repo {
